@@ -281,7 +281,9 @@ class UTPM(Ring, RawAlgorithmsMixIn):
         ybar, dummy, xbar = out
         # print 'xbar =', xbar
         # print 'ybar =', ybar
-        xbar += ybar[sl]
+        if isinstance(xbar, cls):
+            # a constant right hand side (scalar, ndarray) has no adjoint to accumulate into
+            xbar += ybar[sl]
         ybar[sl].data[...] = 0.
         # print 'funcargs=',funcargs
         # print y[funcargs[0]]
